@@ -75,7 +75,10 @@ def handle(op, a):
 def main():
     out = sys.stdout
     for line in sys.stdin:
-        f = line.rstrip("\n").split("\t")
+        line = line.rstrip("\n")
+        # A line starting with "J" carries the fields as a JSON array, so that
+        # they may contain tabs.
+        f = json.loads(line[1:]) if line.startswith("J[") else line.split("\t")
         try:
             r = handle(f[0], f[1:])
         except (InvalidVersion, InvalidSpecifier, InvalidRequirement, InvalidMarker, UndefinedComparison, UndefinedEnvironmentName) as e:
